@@ -756,7 +756,13 @@ class DateTimeBase(Converter, abc.ABC):
                 could not be converted.
         """
         try:
-            return value.strftime(kwargs["format"])
+            fmt = kwargs["format"]
+            if isinstance(value, date):
+                # Not every platform's strftime zero pads %Y like strptime expects
+                year = f"{value.year:04d}"
+                fmt = re.sub("%[%Y]", lambda m: year if m[0] == "%Y" else m[0], fmt)
+
+            return value.strftime(fmt)
         except KeyError:
             raise ConverterError("Missing format keyword argument")
         except Exception as e:
